@@ -2,6 +2,9 @@
 package c07
 
 import (
+	"crypto"
+	"crypto/rand"
+	"crypto/sha256"
 	"encoding/base64"
 	"encoding/json"
 	"flag"
@@ -14,6 +17,8 @@ import (
 	"testing"
 
 	"github.com/google/certificate-transparency-go/trillian/ctfe"
+	"github.com/google/certificate-transparency-go/trillian/ctfe/configpb"
+	"github.com/google/trillian/crypto/keyspb"
 	"github.com/google/trillian"
 	"github.com/google/trillian/types"
 	"google.golang.org/grpc/codes"
@@ -26,6 +31,7 @@ import (
 	"verif/internal/keys"
 	"verif/internal/pki"
 	"verif/internal/reflog"
+	"verif/internal/rfc6962"
 )
 
 // ArithCase is one get-entries request against a spy backend.
@@ -38,6 +44,8 @@ type ArithCase struct {
 	TreeSize    uint64 // what the backend claims
 	ServeLeaves int    // how many leaves the backend returns at most (short read), >= 1
 	Metrics     bool   // process option --getentries_metrics
+	Frozen      bool   // the log is configured with a frozen STH whose tree size is the size the backend claims (get-entries is served as for any other log)
+	Shift       int    // > 0: the backend's reply is an unbroken run of leaves that starts Shift indices after the one asked for (a damaged read)
 	QuotaFaults int    // the backend answers that many range requests with ResourceExhausted before it serves one
 	QStyle      int    // spelling of the query string: 0 canonical, 1 every value octet percent-encoded with unknown parameters around, 2 reverse order between empty pairs
 }
@@ -135,6 +143,10 @@ func genArith(t *rapid.T) ArithCase {
 	if rapid.IntRange(0, 3).Draw(t, "respell") == 0 {
 		c.QStyle = rapid.IntRange(1, 2).Draw(t, "qstyle")
 	}
+	c.Frozen = c.TreeSize < 1<<62 && rapid.IntRange(0, 4).Draw(t, "frozen") == 0
+	if rapid.IntRange(0, 9).Draw(t, "shifted") == 0 {
+		c.Shift = rapid.IntRange(1, 3).Draw(t, "shift")
+	}
 	if rapid.IntRange(0, 5).Draw(t, "quota") == 0 {
 		c.QuotaFaults = rapid.IntRange(1, 4).Draw(t, "nquota")
 	}
@@ -197,6 +209,7 @@ func checkArith(t *testing.T, c ArithCase) (v harness.Verdict) {
 
 	be := reflog.New(6962, 1)
 	var served []*trillian.LogLeaf
+	shifted := false
 	be.Intercept = func(call reflog.Call) (proto.Message, error, bool) {
 		if call.RPC != "GetLeavesByRange" {
 			return nil, nil, false
@@ -218,6 +231,10 @@ func checkArith(t *testing.T, c ArithCase) (v harness.Verdict) {
 			}
 			for i := int64(0); i < n; i++ {
 				idx := req.StartIndex + i
+				if req.StartIndex <= math.MaxInt64-n-int64(c.Shift) {
+					idx += int64(c.Shift)
+					shifted = true
+				}
 				lf := &trillian.LogLeaf{LeafIndex: idx, LeafValue: []byte(fmt.Sprintf("leaf-%d", idx)), ExtraData: []byte(fmt.Sprintf("extra-%d", idx))}
 				rsp.Leaves = append(rsp.Leaves, lf)
 			}
@@ -225,7 +242,24 @@ func checkArith(t *testing.T, c ArithCase) (v harness.Verdict) {
 		served = rsp.Leaves
 		return rsp, nil, true
 	}
-	inst, err := ctfex.New(ctfex.Opts{LogKey: keys.Pick("p256", 1), Roots: []*pki.Cert{sharedRoot}, Backend: be})
+	logKey := keys.Pick("p256", 1)
+	var cfgEdit func(*configpb.LogConfig)
+	if c.Frozen {
+		var root [32]byte
+		in, _ := rfc6962.STHSignatureInput(0, 1700000000000, c.TreeSize, root)
+		h := sha256.Sum256(in)
+		sig, err := logKey.Signer.Sign(rand.Reader, h[:], crypto.SHA256)
+		if err != nil {
+			t.Fatalf("sign frozen STH: %v", err)
+		}
+		ds, _ := rfc6962.EncodeDS(rfc6962.DigitallySigned{Hash: 4, Sig: 3, Signature: sig})
+		cfgEdit = func(cfg *configpb.LogConfig) {
+			cfg.PublicKey = &keyspb.PublicKey{Der: logKey.SPKI}
+			cfg.FrozenSth = &configpb.SignedTreeHead{TreeSize: int64(c.TreeSize), Timestamp: 1700000000000, Sha256RootHash: root[:], TreeHeadSignature: ds}
+		}
+		v.Class("frozen-sth-configured")
+	}
+	inst, err := ctfex.New(ctfex.Opts{LogKey: logKey, Roots: []*pki.Cert{sharedRoot}, Backend: be, Cfg: cfgEdit})
 	if err != nil {
 		t.Fatalf("instance: %v", err)
 	}
@@ -352,6 +386,15 @@ func checkArith(t *testing.T, c ArithCase) (v harness.Verdict) {
 		v.NonTrivial = true
 		if rsp.Status < 400 || rsp.Status >= 500 {
 			v.Failf("beyond-tree-status", "tree size %d <= start %s but status %d", c.TreeSize, sv, rsp.Status)
+		}
+		return v
+	}
+	if c.Shift > 0 && shifted {
+		// what the backend returned does not begin at start: it cannot be served as the range that was asked for
+		v.NonTrivial = true
+		v.Class("backend-run-starts-elsewhere")
+		if rsp.Status == 200 {
+			v.Failf("shifted-run-served", "start=%s end=%s: the backend answered with leaves %d.. instead of %s.., and the front end served them with 200", sv, ev, sv.Int64()+int64(c.Shift), sv)
 		}
 		return v
 	}
